@@ -316,9 +316,6 @@ example : Pkt_WF C06.headerExample.pkt := by
   refine ⟨by decide, by decide, by decide, by decide, by decide, by decide, ?_⟩
   intro a ha; simp [C06.headerExample, Pkt.fresh] at ha
 
-/- NOT proved (open): `STANAG_pack_idempotent`, `PMT_pack_idempotent`.  Both `pack`s rebuild the payload from fields
-   that `pack` does not modify and end in `PES.pack` / `MPEGPacket.pack`, so the same argument applies
-   (`PES_pack_idempotent`, `Pkt_pack_same_payload`); the case analysis over their four / five nested
-   `struct.pack` calls was not done. -/
+/- `STANAG_pack_idempotent`, `PMT_pack_idempotent` (open at the rev2 review) are in `Props/C13/MpegPack.lean`. -/
 
 end Acra.Props.C13
